@@ -317,13 +317,14 @@ void svt_verif_event(int kind, uint64_t a, uint64_t b, uint64_t c, uint64_t d) {
 
 /* ---- pthread wraps -------------------------------------------------------------------- */
 static uint64_t thread_create_count;
+static void report_fault(const char *kind, uint64_t seq, void *ra0);
 uint64_t sim_thread_create_counter(void) { return thread_create_count; }
 int __wrap_pthread_create(pthread_t *th, const pthread_attr_t *a, void *(*fn)(void *), void *arg) {
     if (!g_on) return __real_pthread_create(th, a, fn, arg);
     if (in_lib()) {
         if (a && cfg.eperm_create) { st.eperm_fired++; return EPERM; }
         thread_create_count++;
-        if (cfg.thread_fail_at && (int64_t)thread_create_count == cfg.thread_fail_at) { st.thread_faults_fired++; return EAGAIN; }
+        if (cfg.thread_fail_at && (int64_t)thread_create_count == cfg.thread_fail_at) { st.thread_faults_fired++; report_fault("thread", thread_create_count, __builtin_return_address(0)); return EAGAIN; }
     }
     if (nthr >= MAXT) fatal("SIM_INTERNAL", "too many threads");
     int id = nthr++; Thr *t = &thr[id];
@@ -540,6 +541,21 @@ static uint64_t call_site(void *ra0) {
     }
     return acc;
 }
+/* fault provenance: which library call site asked for the resource that was refused.  Printed (async-signal-safe, no allocation,
+ * no PRNG draw) when the fault fires so that it survives a later crash of the process; the driver symbolises it offline. */
+static void report_fault(const char *kind, uint64_t seq, void *ra0) {
+    char buf[256]; int o = snprintf(buf, sizeof buf, "SIMFAULT %s seq=%llu pcs=0x%lx", kind, (unsigned long long)seq, (unsigned long)((char *)ra0 - &__executable_start - 1));
+    void **fp = __builtin_frame_address(0);
+    int found = 0, printed = 0;   /* frames above the wrapper: skip up to the wrapper's own return address (inlining-independent) */
+    for (int d = 0; d < 10 && fp && printed < 5; d++) {
+        void **nfp = (void **)fp[0]; void *ra = fp[1];
+        if (found) { if (!ra || (char *)ra < &__executable_start) break; o += snprintf(buf + o, sizeof buf - o, ",0x%lx", (unsigned long)((char *)ra - &__executable_start - 1)); printed++; }
+        else if (ra == ra0) found = 1;
+        if (nfp <= fp || (char *)nfp - (char *)fp > (1 << 20)) break;
+        fp = nfp;
+    }
+    buf[o++] = '\n'; if (write(2, buf, (size_t)o) < 0) {}
+}
 static void census(uint64_t site) {
     for (size_t i = 0; i < nsites; i++) if (sites[i].site == site) { sites[i].count++; sites[i].last = alloc_seq; return; }
     if (nsites == capsites) { capsites = capsites ? capsites * 2 : 512; sites = __real_realloc(sites, capsites * sizeof *sites); }
@@ -553,7 +569,7 @@ static int pre_alloc(void *ra, uint64_t *site) {
         alloc_seq++;
         if (census_on || (cfg.alloc_fail_at && (int64_t)alloc_seq == cfg.alloc_fail_at)) *site = call_site(ra);
         if (census_on) census(*site);
-        if (cfg.alloc_fail_at && (int64_t)alloc_seq == cfg.alloc_fail_at) { st.alloc_faults_fired++; last_failed_site = *site; return 1; }
+        if (cfg.alloc_fail_at && (int64_t)alloc_seq == cfg.alloc_fail_at) { st.alloc_faults_fired++; last_failed_site = *site; report_fault("alloc", alloc_seq, ra); return 1; }
     }
     return 0;
 }
